@@ -466,6 +466,9 @@ pub struct OptVec {
     pub no_schema: bool,
     pub with_snippet: bool,
     pub crop_radius: usize,
+    /// `robotics` feature: deg(..) / rad(..) and arithmetic in numeric scalars
+    #[serde(default)]
+    pub angle_conversions: bool,
 }
 
 impl Default for OptVec {
@@ -480,6 +483,7 @@ impl Default for OptVec {
             no_schema: false,
             with_snippet: true,
             crop_radius: 64,
+            angle_conversions: false,
         }
     }
 }
@@ -501,6 +505,7 @@ impl OptVec {
         o.no_schema = self.no_schema;
         o.with_snippet = self.with_snippet;
         o.crop_radius = self.crop_radius;
+        o.angle_conversions = self.angle_conversions;
         o
     }
     pub fn is_default(&self) -> bool {
@@ -525,6 +530,7 @@ impl OptVec {
         if rng.chance(1, 10) {
             o.budget = None;
         }
+        o.angle_conversions = rng.chance(1, 6);
         o
     }
     /// Make one budget counter (or alias limit) tight enough that small documents reach it. Which
